@@ -75,15 +75,32 @@ func (args *AtDateAndTimeArgs) AtTime(now gotime.Time, config app.Config) (klog.
 		return time, nil
 	} else if today.PlusDays(-1).IsEqualTo(date) {
 		shiftedTime, _ := time.Plus(klog.NewDuration(24, 0))
+		if shiftedTime == nil {
+			return nil, unrepresentableTimeError()
+		}
 		return shiftedTime, nil
 	} else if today.PlusDays(1).IsEqualTo(date) {
 		shiftedTime, _ := time.Plus(klog.NewDuration(-24, 0))
+		if shiftedTime == nil {
+			return nil, unrepresentableTimeError()
+		}
 		return shiftedTime, nil
 	}
 	return nil, app.NewErrorWithCode(
 		app.LOGICAL_ERROR,
 		"Missing time parameter",
 		"Please specify a time value for dates in the past",
+		nil,
+	)
+}
+
+// unrepresentableTimeError is for when the current time cannot be expressed
+// relative to the desired date (i.e., it’s more than one day off).
+func unrepresentableTimeError() app.Error {
+	return app.NewErrorWithCode(
+		app.LOGICAL_ERROR,
+		"Invalid time",
+		"The current time cannot be represented at the given date. Please specify a time value explicitly",
 		nil,
 	)
 }
